@@ -324,6 +324,7 @@ func genC13(c *Ctx) {
 	}
 	c13RandFailure(c)
 	c13Keyless(c)
+	smpRestarts(c)
 	// authenticated but malicious key-exchange payloads: a peer that takes part in the exchange puts something
 	// unparsable (or somebody else's key) where its public key and signature belong, encrypted and MACed correctly
 	for _, typ := range []byte{0x11, 0x12} {
